@@ -469,6 +469,10 @@ def run_c07(ctx):
             vs.append({'t': 'insert', 'at': at, 'k': k, 'pid': rnd_py.choice(pids)})
         for pid in pids:
             vs.append({'t': 'corrupt', 'pid': pid, 'mode': rnd_py.choice(['dropall', 'dropsome', 'garbage', 'tei', 'badaf', 'badaf'])})
+        for pid in [q for q in pids if q == 0 or q in (s.get('pmtpids') or [])][:2]:
+            # an exact copy of the packet completing the PID's last table, adjacent to it in one multiplex and behind a null packet in another
+            vs.append({'t': 'dupadj', 'pid': pid})
+            vs.append({'t': 'dupsep', 'pid': pid})
         es = sorted({p['pid'] for p in s['pkts'] if p.get('k', '') == '' and p['pid'] >= 0x100 and p['pid'] != 0x1000 and p['pid'] != 0x1001})
         free = [q for q in (0x14, 0x13, 0x12, 0x11, 0x10) if q not in pids]
         if es and free:
